@@ -121,14 +121,23 @@ def run(tier, seed, replay=None):
             want = span_spec(gs, c0, c1)
             if res["ok"] != want:
                 R.violation("field %r is not the stretch between cursor %d and %d: %r" % (res["ok"][:80], c0, c1, want[:80]), c)
-        elif c["kind"] == "v" and c["cmd"].count("o") == 0:
-            want = span_spec(gs, c0, c1)     # anchor = where v was pressed = c0; selection = anchor..cursor inclusive
+        elif a["sel_mode"] and (a["sel_mode"].startswith("Char") or a["sel_mode"].startswith("Line")) and a["sel_range"]:
+            # the property: exactly the selected text, i.e. the graphemes of the editor's own selection
+            m = re.match(r"OneDim\(\((\d+), (\d+)\)\)", a["sel_range"])
+            s0, e0 = int(m.group(1)), int(m.group(2))
+            if a["sel_mode"].startswith("Char"):
+                want = "".join(gs[s0:min(e0 + 1, len(gs))]) if s0 < len(gs) else ""
+            else:
+                want = "".join(gs[s0:e0]) if s0 < len(gs) and e0 <= len(gs) else ""
+            R.count("selection_checked")
             if res["ok"] != want:
-                R.violation("charwise selection %r is not anchor..cursor (%d..%d): %r" % (res["ok"][:80], c0, c1, want[:80]), c)
-        elif c["kind"] == "V":
-            want = lines_spec(gs, c0, c1)
-            if res["ok"] != want:
-                R.violation("linewise selection %r is not the lines of %d..%d: %r" % (res["ok"][:80], c0, c1, want[:80]), c, classes=["select.linewise_last_line"])
+                R.violation("the field %r is not the text of the active selection %s: %r" % (res["ok"][:80], a["sel_range"], want[:80]), c)
+            # which text a `v`/`V` + motions selection *should* cover (anchor..cursor, whole lines) is a question about the
+            # selection, not about the field: counted here, decided by C02/C09
+            if c["kind"] == "v" and c["cmd"].count("o") == 0 and res["ok"] != span_spec(gs, c0, c1):
+                R.count("selection_is_not_anchor_to_cursor")
+            if c["kind"] == "V" and res["ok"] != lines_spec(gs, c0, c1):
+                R.count("selection_is_not_the_lines_anchor_to_cursor")
         elif a["sel_mode"] and a["sel_mode"].startswith("Block") and a["sel_range"]:
             # block selection: one row per window of the editor's own select_range, empty rows included
             ws = [(int(x), int(y)) for x, y in re.findall(r"\((\d+), (\d+)\)", a["sel_range"])]
